@@ -348,7 +348,8 @@ def o_waiters(prog, lines):
 
 
 def o_sems(prog, lines):
-    """C18: permit conservation from the log (avail probes), try_acquire exactness, close"""
+    """C18: permit conservation from the log (avail probes), try_acquire exactness, close; `Acquire` futures (acq_new /
+    acq_poll / acq_await / acq_drop, possibly by different tasks) are accounted for when they report completion"""
     P = parse_program(prog)
     bad = []
     sems = {}
@@ -356,14 +357,75 @@ def o_sems(prog, lines):
         t = l.split()
         if len(t) >= 5 and t[0] == "obj" and t[2] == "sem":
             sems[t[1]] = (int(t[3]), t[4] == "fair")
+    ACQUIRING = ("acquire", "acq_await", "acq_poll", "acq_new")
+
+    def strip(op):
+        op = list(op)
+        while op and op[0] == "block_on":
+            op = op[1:]
+        return op
+
     for e in executions(lines):
         avail = {s: v[0] for s, v in sems.items()}
         closed = set()
         unknown = set()
-        for tid, k, pc, name, args, res in _ops(P, e):
+        acq = {}                      # handle -> [sem, n, state]   state: new | pending | done
+        last_release = {s: -1 for s in sems}
+        last_pc, ended = {}, set()
+        for i, (tid, k, pc, name, args, res) in enumerate(_ops(P, e)):
             if name == "panicking":
                 unknown.update(sems)
-            if pc is None or not args or args[0] not in sems:
+            if pc is None:
+                if name in ("end", "dropped"):
+                    ended.add(k)
+                continue
+            last_pc[k] = pc
+            op = strip([name] + list(args))
+            if not op:
+                continue
+            name, args = op[0], op[1:]
+            # ---- Acquire futures
+            if name == "acq_new" and len(args) >= 3 and args[1] in sems and res == "ok":
+                if args[0] in acq:
+                    # the slot was emptied by an `acq_await` that is still in progress: two acquisitions share one
+                    # name from here on and the log no longer tells them apart — stop accounting
+                    unknown.update(sems)
+                acq[args[0]] = [args[1], int(args[2]), "new", i]
+                continue
+            if name in ("acq_poll", "acq_await") and args and args[0] not in acq and res in ("ready:ok", "ok"):
+                unknown.update(sems)
+                continue
+            if name in ("acq_poll", "acq_await", "acq_drop") and args and args[0] in acq:
+                h = args[0]
+                s, n, st, since = acq[h]
+                if s in unknown:
+                    continue
+                if name == "acq_poll":
+                    if res == "ready:ok":
+                        avail[s] -= n
+                        acq.pop(h)
+                    elif res == "ready:closed":
+                        if s not in closed:
+                            bad.append((f"semaphore {s}: an acquisition failed with Closed on an open semaphore", "C18:closed-early"))
+                        acq.pop(h)
+                    elif res == "pending":
+                        if st == "new":
+                            acq[h] = [s, n, "pending", i]
+                elif name == "acq_await":
+                    if res == "ok":
+                        avail[s] -= n
+                        acq.pop(h)
+                    elif res == "closed":
+                        if s not in closed:
+                            bad.append((f"semaphore {s}: an acquisition failed with Closed on an open semaphore", "C18:closed-early"))
+                        acq.pop(h)
+                elif name == "acq_drop" and res == "ok":
+                    acq.pop(h)             # whatever it had been granted goes back: no change of the count
+                if avail[s] < 0:
+                    bad.append((f"semaphore {s}: more permits acquired than ever existed", "C18:conservation"))
+                    avail[s] = 0
+                continue
+            if not args or args[0] not in sems:
                 continue
             s = args[0]
             n = int(args[1]) if len(args) > 1 and args[1].isdigit() else 0
@@ -372,14 +434,19 @@ def o_sems(prog, lines):
             if name == "acquire" and res == "ok":
                 avail[s] -= n
             elif name == "try_acquire":
+                queued = [h for h, (hs, hn, st, since) in acq.items() if hs == s and st == "pending" and since > last_release[s]]
                 if res == "ok":
                     avail[s] -= n
+                    if sems[s][1] and queued and n > 0 and s not in closed:
+                        bad.append((f"semaphore {s} (fair): try_acquire({n}) succeeded although the acquisition in slot {queued[0]} has been queued "
+                                    f"since before the last release", "C18:try-overtakes-queue"))
                 elif res == "nopermits" and not sems[s][1] and avail[s] >= n and n > 0 and s not in closed:
                     bad.append((f"semaphore {s} (unfair): try_acquire({n}) failed with {avail[s]} permits available", "C18:try-fails-with-permits"))
                 elif res == "closed" and s not in closed:
                     bad.append((f"semaphore {s}: try_acquire reported Closed on an open semaphore", "C18:closed-early"))
             elif name == "release" and res == "ok":
                 avail[s] += n
+                last_release[s] = i
             elif name == "close":
                 closed.add(s)
             elif name == "avail" and res.startswith("v:"):
@@ -388,6 +455,17 @@ def o_sems(prog, lines):
                 # `available`, so the probe may be lower than the log-derived count, never higher
                 if got > avail[s]:
                     bad.append((f"semaphore {s}: available_permits() = {got} but only {avail[s]} can exist (initial {sems[s][0]} + released − acquired)", "C18:conservation"))
+                # … and it is exact when nobody can be holding a grant: no acquisition outstanding in the table and no
+                # other body with an acquiring op still ahead of it (or in the middle of one)
+                outstanding = any(hs == s for hs, hn, st, since in acq.values())
+                for b, ops in P["bodies"].items():
+                    if b == k or b in ended:
+                        continue
+                    if any(strip(o)[:1] and strip(o)[0] in ACQUIRING for o in ops[last_pc.get(b, -1) + 1:]):
+                        outstanding = True
+                if not outstanding and got < avail[s]:
+                    bad.append((f"semaphore {s}: available_permits() = {got} although {avail[s]} permits exist and nobody holds or awaits any "
+                                f"(initial {sems[s][0]} + released − acquired): permits were lost", "C18:permits-lost"))
             if avail[s] < 0:
                 bad.append((f"semaphore {s}: more permits acquired than ever existed", "C18:conservation"))
                 avail[s] = 0
